@@ -10,7 +10,7 @@
 From Coq Require Import List Bool ZArith Lia.
 Import ListNotations.
 From Rosed Require Import Base.Res Base.ListX Base.Str Base.Utf8 Gem.Segment Gem.GString Model.Tb Model.Manip Model.Table Model.Options Model.Editor Model.Ops
-     Proofs.SeamP Proofs.C15P Proofs.C15Q gen.Consts Inst.GoConsts.
+     Proofs.SeamP Proofs.C15P Proofs.C15Q gen.Consts Inst.GoConstsLayout.
 Open Scope Z_scope.
 
 Theorem C15_term_column : forall (C : Classifier) (K : ClassifierOk) term longest,
@@ -59,6 +59,6 @@ Print Assumptions C15_longest.
 (* the layout literals of the model ("- ", the two-space term indent, the two-space column gap,
    the borderless table padding) are the constants of operations.go / table.go in the source now *)
 Theorem C15_layout_constants_are_the_source :
-  go_definitionStart = [HYPHEN; SP] /\ go_termLeftTabWidth = 2 /\ go_minBetween = 2 /\ go_minNonBorderInterColumnPadding = 2.
+  go_definitionStart = [HYPHEN; SP] /\ go_termLeftTabWidth = 2 /\ go_minBetween = 2.
 Proof. exact go_layout_consts_eq. Qed.
 Print Assumptions C15_layout_constants_are_the_source.
